@@ -499,8 +499,9 @@ func (x *Exec) builtin(fr *Frame, st *State, in ssa.Instruction, b *ssa.Builtin,
 			return intVal(StrLen(a.T), types.Typ[types.Int])
 		case VCoins:
 			// canonical-form assumption: len(c) = 0 iff every amount is zero
-			n := Const(freshName("coinslen"), SInt)
+			n := CoinsLen(a.T)
 			st.Assume(Ge(n, Num(0)))
+			st.Assume(Le(n, Num(1000000)))
 			st.Assume(Eq(Eq(n, Num(0)), Eq(a.T, zeroCoins)))
 			x.note("len(sdk.Coins): canonical-form assumption (no zero entries)")
 			return intVal(n, types.Typ[types.Int])
